@@ -293,7 +293,7 @@ class _TrialTimeout(BaseException):
     """A trial of the real study did not finish within TRIAL_TIMEOUT_S (BaseException: optuna must not catch it)."""
 
 
-TRIAL_TIMEOUT_S = 120
+TRIAL_TIMEOUT_S = 90
 
 
 def _alarm(signum, frame):
@@ -372,10 +372,18 @@ def run_scenario(sc: dict) -> list:
             q = p if sc["hist"] == "same" or (sc["hist"] != "far" and rng.random() < 0.3) else widen(p, sc["hist"], rng)
             call(trial, nm, q)
         return rng.random()
-    if sc["n_hist"]:
-        study.optimize(hist_objective, n_trials=sc["n_hist"])
-
     out = []
+    signal.signal(signal.SIGALRM, _alarm)
+    if sc["n_hist"]:
+        signal.alarm(TRIAL_TIMEOUT_S)
+        try:
+            study.optimize(hist_objective, n_trials=sc["n_hist"])
+        except _TrialTimeout:
+            return [{"ev": [], "meta": {"sid": sc["sid"], "trial": -1, "sampler": sc["sampler"], "storage": sc["storage"],
+                                        "timeout": True}}]
+        finally:
+            signal.alarm(0)
+
     for plan in sc["trials"]:
         ev = []
         rec = {}
@@ -436,7 +444,6 @@ def run_scenario(sc: dict) -> list:
         if plan["enqueue"]:
             study.enqueue_trial(dict(plan["enqueue"]))
         n_before = len(study.trials)
-        signal.signal(signal.SIGALRM, _alarm)
         signal.alarm(TRIAL_TIMEOUT_S)
         try:
             study.optimize(objective, n_trials=1)
